@@ -222,3 +222,162 @@ GENERATORS = {'plain': gen_plain, 'rec': gen_rec}
 def gen_program(rng, classes, **kw):
     c = rng.choice(classes)
     return GENERATORS[c](rng, **kw)
+
+
+# ---------------------------------------------------------------------------------------------
+# switch / one-of classes (constructive builder)
+# ---------------------------------------------------------------------------------------------
+class Builder:
+    def __init__(self, rng):
+        self.rng = rng
+        self.nodes = []
+        self.public = []      # nodes any later node may consume with a plain Input
+        self.nsw = 0
+
+    def new(self, params, public=True, **attrs):
+        name = f'n{len(self.nodes)}'
+        node = {'name': name, 'params': params}
+        node.update(attrs)
+        self.nodes.append(node)
+        if public:
+            self.public.append(name)
+        return name
+
+    def pick(self, k, exclude=()):
+        pool = [p for p in self.public if p not in exclude]
+        k = min(k, len(pool))
+        if k <= 0:
+            return []
+        # bias to recent nodes
+        if self.rng.random() < 0.5:
+            pool = pool[-4:]
+            k = min(k, len(pool))
+        return self.rng.sample(pool, k)
+
+    def in_params(self, srcs, start=0):
+        return [[f'a{start + j}', ['In', s]] for j, s in enumerate(srcs)]
+
+
+def _private_chain(b, rng, depth, cfg, level):
+    """fresh private chain; returns the name of its top node.  The bottom reads public nodes."""
+    srcs = b.pick(rng.choice([1, 1, 2]))
+    if not srcs and b.public:
+        srcs = [b.public[0]]
+    top = b.new(b.in_params(srcs), public=False)
+    for _ in range(depth - 1):
+        extra = b.pick(rng.choice([0, 0, 1]), exclude=(top,))
+        params = b.in_params([top] + extra)
+        if level < cfg.get('max_nest', 1) and rng.random() < cfg.get('p_nest', 0.0):
+            params = _add_construct(b, rng, params, cfg, level + 1)
+        top = b.new(params, public=False)
+    return top
+
+
+def _used(params):
+    used = set()
+    for _, m in params:
+        if m[0] == 'In':
+            used.add(m[1])
+        elif m[0] == 'Switch':
+            used.add(m[2])
+            used.update(c for _, c in m[3])
+        elif m[0] == 'OneOf':
+            used.update(m[1])
+        elif m[0] == 'Rec':
+            used.add(m[2])
+    return used
+
+
+def _add_construct(b, rng, params, cfg, level):
+    kind = rng.choice(cfg['constructs'])
+    used = _used(params)
+    kw = f'a{len(params)}'
+    shared = cfg.get('shared', False)
+    if kind == 'switch':
+        ncases = rng.choice([1, 2, 2, 3])
+        dsrc = b.pick(rng.choice([1, 1, 2]))
+        cases = []
+        labels = []
+        for ci in range(ncases):
+            lab = f'L{ci}'
+            if shared and rng.random() < 0.5:
+                c = b.pick(1, exclude=used | {x for _, x in cases})
+                if c:
+                    cases.append([lab, c[0]])
+                    labels.append(lab)
+                    continue
+            top = _private_chain(b, rng, rng.choice([1, 1, 2, 3]), cfg, level)
+            if shared and rng.random() < 0.5:
+                b.public.append(top)
+            cases.append([lab, top])
+            labels.append(lab)
+        table = list(labels)
+        if cfg.get('unknown_label') and rng.random() < 0.25:
+            table.append('UNK')
+        d = b.new(b.in_params(dsrc), public=shared and rng.random() < 0.5, value={'labels': table})
+        b.nsw += 1
+        name = f'sw{b.nsw}' if rng.random() < 0.8 else None
+        params = params + [[kw, ['Switch', name, d, cases]]]
+    else:
+        ncand = rng.choice([1, 2, 2, 3])
+        cands = []
+        for ci in range(ncand):
+            if shared and rng.random() < 0.4:
+                c = b.pick(1, exclude=used | set(cands))
+                if c:
+                    cands.append(c[0])
+                    continue
+            top = _private_chain(b, rng, rng.choice([1, 2, 2, 3, 4]), cfg, level)
+            if shared and rng.random() < 0.4:
+                b.public.append(top)
+            cands.append(top)
+        params = params + [[kw, ['OneOf', cands]]]
+    return params
+
+
+def gen_constructs(rng, cfg, faults=True, n_max=9, **kw):
+    b = Builder(rng)
+    b.new([])
+    n_main = rng.randint(2, max(2, n_max - 3))
+    placed = 0
+    for i in range(n_main):
+        last = i == n_main - 1
+        k = rng.choice([1, 1, 2, 2, 3]) if i else 1
+        params = b.in_params(b.pick(k))
+        want = rng.random() < cfg.get('p_construct', 0.45) or (last and placed == 0)
+        if want and len(b.nodes) < 14:
+            params = _add_construct(b, rng, params, cfg, 0)
+            placed += 1
+            if rng.random() < 0.2 and len(b.nodes) < 14:
+                params = _add_construct(b, rng, params, cfg, 0)
+        b.new(params)
+    spec = {'nodes': b.nodes, 'input': 'n0', 'output': b.nodes[-1]['name']}
+    prune(spec)
+    assign_modes(rng, spec['nodes'])
+    for n in spec['nodes']:
+        if isinstance(n.get('value'), dict):
+            continue
+    decorate_values(rng, spec, p_falsy=cfg.get('p_falsy', 0.06))
+    if faults:
+        # a BaseException raised inside a one-of candidate is neither a 'failure to contain' nor documented;
+        # the claimed class keeps BaseExceptions out of programs with one-of (DESIGN 4.2)
+        if 'oneof' in cfg['constructs']:
+            kw = dict(kw, allow_base=False)
+        decorate_faults(rng, spec, **kw)
+    spec['class'] = cfg['name']
+    return spec
+
+
+CFG = {
+    'switch': {'name': 'switch', 'constructs': ['switch'], 'shared': False, 'p_nest': 0.25, 'max_nest': 2},
+    'switch_unk': {'name': 'switch_unk', 'constructs': ['switch'], 'shared': False, 'p_nest': 0.2, 'max_nest': 1,
+                   'unknown_label': True},
+    'switch_shared': {'name': 'switch_shared', 'constructs': ['switch'], 'shared': True, 'p_nest': 0.2, 'max_nest': 1},
+    'oneof': {'name': 'oneof', 'constructs': ['oneof'], 'shared': False, 'p_nest': 0.0},
+    'oneof_nested': {'name': 'oneof_nested', 'constructs': ['oneof'], 'shared': False, 'p_nest': 0.3, 'max_nest': 2},
+    'oneof_shared': {'name': 'oneof_shared', 'constructs': ['oneof'], 'shared': True, 'p_nest': 0.2, 'max_nest': 1},
+    'switch_oneof': {'name': 'switch_oneof', 'constructs': ['switch', 'oneof'], 'shared': False, 'p_nest': 0.3,
+                     'max_nest': 2},
+}
+for _k, _cfg in CFG.items():
+    GENERATORS[_k] = (lambda cfg: (lambda rng, **kw: gen_constructs(rng, cfg, **kw)))(_cfg)
